@@ -98,6 +98,33 @@ func checkAbsent(prop string, seg segment.Segment, want *spec.Obs) *Violation {
 							v = violation(prop, "absent-term/nonempty-postings-recycled", "absent term %q in field %q looked up with a list recycled from (%q,%q) has %d hits, Count=%d", t, f, pf, pt, len(hits2), pl2.Count())
 							return nil
 						}
+						// iterator objects travel the same way: the iterator of an empty result is handed
+						// back as preallocation for a present term, read partly, and the absent term is
+						// looked up again
+						present, err := pd.PostingsList([]byte(pt), nil, nil)
+						if err != nil {
+							return err
+						}
+						emptyIt := pl.Iterator(true, true, true, nil)
+						it := present.Iterator(true, true, true, emptyIt)
+						if p, err := it.Next(); err != nil || p == nil {
+							v = violation(prop, "present-term/recycled-iterator", "present term (%q,%q) read through an iterator recycled from an empty result gives %v, %v", pf, pt, p, err)
+							return nil
+						}
+						pl3, err := d.PostingsList([]byte(t), nil, nil)
+						if err != nil {
+							return err
+						}
+						for _, pre := range []segment.PostingsIterator{nil, it} {
+							p, err := pl3.Iterator(true, true, true, pre).Next()
+							if err != nil {
+								return fmt.Errorf("absent (%q,%q) after an iterator was recycled: %w", f, t, err)
+							}
+							if p != nil {
+								v = violation(prop, "absent-term/nonempty-after-iterator-recycling", "absent term %q in field %q yields doc %d after the iterator of an empty result was recycled for (%q,%q) and read partly", t, f, p.Number(), pf, pt)
+								return nil
+							}
+						}
 						break
 					}
 					break
